@@ -109,6 +109,13 @@ def sx(term) -> str:
     return "(" + " ".join(sx(t) for t in term) + ")"
 
 
+def sx_keep_noop(term) -> str:
+    """like `sx`, but a `noop` keeps its query type (for the query-equality model)"""
+    if isinstance(term, str):
+        return term.split("@")[0] if "@" in term else term
+    return "(" + " ".join(sx_keep_noop(t) for t in term) + ")"
+
+
 # ---------------------------------------------------------------------------
 # vocabulary of user functions
 # ---------------------------------------------------------------------------
